@@ -588,7 +588,17 @@ func (r *run) execAppend(fr *frame, st *State, c *ssa.CallCommon, args []Val, re
 	// statically known argument length (variadic packing creates a literal array slice)
 	n, known := r.knownLen(t)
 	inPlace := fmt.Sprintf("(<= (+ %s %s) %s)", slen, tlen, scap)
-	if fr.root != nil && fr.root.contract != nil && fr.root.contract.AssignsSet {
+	// `assigns caller-arrays`: the contract declares that the function may write into backing
+	// arrays visible to its caller (an in-place append onto a parameter); no obligation then
+	declared := false
+	if fr.root != nil && fr.root.contract != nil {
+		for _, a := range fr.root.contract.Assigns {
+			if a == "caller-arrays" {
+				declared = true
+			}
+		}
+	}
+	if fr.root != nil && fr.root.contract != nil && fr.root.contract.AssignsSet && !declared {
 		r.oblige(fr.name, "frame.append", reach, fmt.Sprintf("(or (own_%s %s) (= %s 0) (not %s))", m, s.Term, tlen, inPlace), "append must not write into a backing array visible to the caller: "+c.String(), c.Pos())
 	}
 	var narr string
